@@ -357,9 +357,6 @@ func judge(p *prepared, limit int, withWriter bool, o cutObs, buf []byte, wbuf [
 	if err != nil {
 		return verdict{"not-decodable", fmt.Sprintf("decoding encoded[:%d] fails: %v", o.EncLen, err)}
 	}
-	if unread != 0 {
-		return verdict{"trailing-bytes", fmt.Sprintf("encoded[:%d] is a complete stream followed by %d extra bytes", o.EncLen, unread)}
-	}
 	if o.DecLen > len(p.original) {
 		return verdict{"decodedLen>original", fmt.Sprintf("decodedLen=%d > len(original)=%d", o.DecLen, len(p.original))}
 	}
@@ -378,6 +375,10 @@ func judge(p *prepared, limit int, withWriter bool, o cutObs, buf []byte, wbuf [
 	}
 	if limit >= len(p.data) && o.DecLen != len(p.original) {
 		return verdict{"not-whole-at-full-limit", fmt.Sprintf("limit %d >= len %d but decodedLen=%d of %d", limit, len(p.data), o.DecLen, len(p.original))}
+	}
+	// "the first that-many bytes form a complete valid stream": nothing may follow the stream's end.
+	if unread != 0 {
+		return verdict{"trailing-bytes", fmt.Sprintf("encoded[:%d] is a complete stream followed by %d extra bytes", o.EncLen, unread)}
 	}
 	return verdict{}
 }
